@@ -29,7 +29,8 @@ TEMPLATES = {
 
 
 def instances(tmpl, rng, depth=0):
-    """entry counts 0/1/2, optional members present or absent, nested groups 0/1/2"""
+    """entry counts 0/1/2, optional members present or absent, nested groups 0/1/2; and counts around
+    the places where the count's text gets longer (9, 10, 11, 12), outer and nested"""
     out = [[]]
     ms = tmpl['members']
 
@@ -61,6 +62,11 @@ def instances(tmpl, rng, depth=0):
         for full in (True, False):
             for nn in (0, 1, 2):
                 out.append([entry(full, nn) for _ in range(n)])
+    for n in (9, 10, 11, 12):
+        out.append([entry(True, 0) for _ in range(n)])
+    if any(it['k'] == 'g' for it in ms):
+        for nn in (9, 10, 11):
+            out.append([entry(True, nn)])
     return out
 
 
@@ -226,7 +232,7 @@ def run(ctx):
     ctx.cov.update({
         'states': max(r['distinct'], 1), 'transitions': max(r['generated'], 1), 'traces_validated_against_impl': len(clean),
         'evaluations': len(rows), 'distinct_nontrivial': len(set((c['id'], json.dumps(c['inst']), c['dict'], json.dumps(c['after'])) for c in cases)),
-        'rule': 'one case = (template, instance, body layout, dictionary setting); synthetic templates %s with entry counts 0/1/2, optional members on/off, nested 0/1/2; every group of every message of %s' % (sorted(TEMPLATES), specs),
+        'rule': 'one case = (template, instance, body layout, dictionary setting); synthetic templates %s with entry counts 0/1/2/9/10/11/12, optional members on/off, nested 0/1/2/9/10/11; every group of every message of %s' % (sorted(TEMPLATES), specs),
         'shipped_groups': ngroups, 'samples': [{'id': rows[3]['id'], 'bytes': rows[3]['obs'].get('bytes')}, {'id': rows[-1]['id']}], 'exhaustive': False,
     })
 
